@@ -15,7 +15,14 @@ One run = one (policy kind x environment x decode mode x decoding knobs) record/
   ``num_starts`` and (B) on the original batch with ``num_samples=k`` (no forced move in evaluate mode);
   the forced step 0 is excluded from the comparison;
 * scenario ``ppo``: ``PPO.shared_step`` outside a Trainer (shims), mini-batch = whole batch: the first
-  inner-step ratio exp(new - old) is 1 within 1e-5 for every row (oracle (iii)).
+  inner-step ratio exp(new - old) is 1 within 1e-5 for every row (oracle (iii));
+* scenario ``stepwise_ppo``: L2D's own step-wise PPO (``L2DPPOModel`` / ``StepwisePPO`` / ``L2DPolicy4PPO``) on tiny
+  FJSP / JSSP instances: (A) an episode rolled out with ``policy_old.act`` the way ``StepwisePPO.shared_step``
+  does; every recorded (state, action, stored log-prob) is re-scored by ``policy.evaluate`` and against the
+  float64 reference under the knobs ``evaluate`` hands to ``process_logits``; (B) 2-3 consecutive
+  ``shared_step(batch, i, "train")`` calls outside a Trainer: the ratio of the FIRST mini-batch of EVERY update
+  (no optimizer step of that update taken yet) is 1 (oracle (iv): a stale ``policy_old`` shows from the second
+  update on).
 """
 from __future__ import annotations
 
@@ -77,14 +84,18 @@ class _Rec:
 class ProcessTap:
     """Records every rl4co.utils.decoding.process_logits call (logits cloned BEFORE the call: the
     function masks its argument in place).  Wraps whatever is bound at __enter__ (so an in-memory mutant
-    installed earlier is observed, not bypassed)."""
+    installed earlier is observed, not bypassed).  `mod`: another module holding its own binding of the name
+    (``from rl4co.utils.decoding import process_logits``), e.g. rl4co.models.zoo.l2d.policy."""
 
-    def __init__(self):
+    def __init__(self, mod=None):
         self.records = []
+        self._mod = mod
 
     def __enter__(self):
         import rl4co.utils.decoding as dec
 
+        if self._mod is not None:
+            dec = self._mod
         self._dec = dec
         self._orig = orig = dec.process_logits
         tap = self
@@ -192,6 +203,7 @@ SCRIPTED_ENVS = [e for e in E.ALL_CONSTRUCTIVE if e != "ffsp"] + ["ffsp"]
 PPO_COMBOS = [("am", e) for e in P.AM_ENVS] + [("ham", "pdp"), ("symnco", "tsp"), ("symnco", "cvrp"),
                                                ("polynet", "tsp")]
 REAL_COMBOS = [(k, e) for k in sorted(P.POLICY_ENVS) for e in P.POLICY_ENVS[k]]
+STEPWISE_ENVS = ["fjsp", "jssp"]  # L2DPPOModel asserts env.name in these
 MODES = ["greedy", "sampling", "multistart_greedy", "multistart_sampling", "beam_search", "multisample"]
 
 
@@ -254,12 +266,19 @@ class C11:
     chunk = 4
     rule = ("run = one record/replay experiment: (policy kind x environment) drawn uniformly from the "
             "allow-list (24 real policy x env pairs, scripted decoder x 21 environments, PPO first inner "
-            "step), batch 1-4 of generator instances with 4-7 nodes, decode mode in {greedy, sampling, "
+            "step in ~10% of the runs, L2D step-wise PPO in ~6%), batch 1-4 of generator instances with 4-7 nodes, decode mode in {greedy, sampling, "
             "multistart_greedy, multistart_sampling, beam_search, sampling with num_samples}, replication "
             "factor 2-5, select_best on/off, temperature / tanh clip / top-k / top-p swarm, per-step vs summed "
             "log-likelihood, entropy on/off, optional harness-supplied td['mask'] (irrelevant steps).  "
             "Run 1 records, run 2 replays in evaluate mode (expanded batch without num_starts, and "
-            "original batch with num_samples=k).  Non-trivial = replicated rows or a forced first move or "
+            "original batch with num_samples=k).  Scenario stepwise_ppo (FJSP / JSSP with 2-4 jobs, 2-3 machines, "
+            "<= 3 operations per job, step-wise reward, _torchrl_mode on/off; L2DPPOModel(policy_kwargs=...) with "
+            "embed_dim 32, 1 layer, temperature in {0.5, 1, 2}, tanh_clipping in {0, 10}, batch / instance "
+            "normalisation, modules in eval() -- or train() with instance normalisation --, Adam / SGD, 1-2 PPO "
+            "epochs, mini-batch B..4B): (A) one episode of policy_old.act / env.step as in StepwisePPO.shared_step, "
+            "every recorded (state, action, stored log-prob) re-scored by policy.evaluate and by the float64 "
+            "reference; (B) 2-3 consecutive shared_step(batch, i, 'train') calls on fresh batches of 2-4 instances, "
+            "ratio of the first mini-batch of every update.  Non-trivial = replicated rows or a forced first move or "
             "a filter / mask / clip other than the default was active; distinct = distinct event-log digest.")
     components_real = ["rl4co.models.common.constructive.base.ConstructivePolicy.forward",
                        "rl4co.utils.decoding (process_logits, DecodingStrategy.step/pre/post hooks, Greedy, "
@@ -267,10 +286,15 @@ class C11:
                        "unbatchify_and_gather, gather_by_index, calculate_entropy, select_start_nodes)",
                        "AttentionModelPolicy, PointerNetworkPolicy, HeterogeneousAttentionModelPolicy, "
                        "MDAMPolicy, PolyNetPolicy, SymNCOPolicy, MatNetPolicy, L2DPolicy (random weights, "
-                       "embed_dim 32)", "rl4co.models.rl.ppo.ppo.PPO.shared_step", "rl4co environments and "
-                       "generators"]
+                       "embed_dim 32)", "rl4co.models.rl.ppo.ppo.PPO.shared_step",
+                       "rl4co.models.zoo.l2d.policy.L2DPolicy4PPO.act / .evaluate (HetGNN feature extractor, FJSP / "
+                       "JSSP actor, critic MLP)", "rl4co.models.rl.ppo.stepwise_ppo.StepwisePPO.shared_step / .update "
+                       "(policy_old, TensorDictReplayBuffer with ListStorage and SamplerWithoutReplacement, PPO epochs "
+                       "over mini-batches, policy_old sync) through rl4co.models.zoo.l2d.model.L2DPPOModel, with the "
+                       "optimizer from RL4COLitModule.configure_optimizers", "rl4co environments and generators"]
     components_stub = ["scripted decoder (state-keyed logits table) in place of a network for the 'scripted' "
-                       "kind", "trainer shims for PPO (optimizers, manual_backward, clip_gradients, log_dict)",
+                       "kind", "trainer shims for PPO and step-wise PPO (optimizers, manual_backward, clip_gradients -- a no-op for PPO, "
+                       "torch clip_grad_norm_ for step-wise PPO --, log_dict)",
                        "td['mask'] supplied by the harness (no bundled environment sets it)",
                        "EDA PDN data files (stub npy)"]
     assumptions = ["CPU float32", "instances from the library generators at 4-7 nodes", "OP instances use "
@@ -279,9 +303,14 @@ class C11:
                    "MatNet's random one-hot embedding: torch is seeded identically before run 1 and run 2 and "
                    "only replays with the same number of encoder rows are compared",
                    "PolyNet conditions its logits on the replica slot: only slot-preserving replays (original "
-                   "batch, num_samples=k, no best-selection, no beam) are compared"]
+                   "batch, num_samples=k, no best-selection, no beam) are compared",
+                   "step-wise PPO: BatchNorm layers run on their running statistics (eval()); train() mode is only "
+                   "exercised with the per-sample instance normalisation (normalization='instance', as in "
+                   "configs/experiment/scheduling/gnn-ppo.yaml); replay buffer on ListStorage (the default "
+                   "buffer_storage_device)"]
     required_probes = ["forced_step_zero", "roundtrip_expanded", "roundtrip_num_samples", "filter_active",
-                       "step_mask_applied", "ppo_ratio", "select_best_roundtrip", "beam_roundtrip"]
+                       "step_mask_applied", "ppo_ratio", "select_best_roundtrip", "beam_roundtrip", "stepwise_roundtrip",
+                       "stepwise_second_update"]
     excluded = [
         ["mdam", "*", "evaluate", "own multi-path decoder without an evaluate mode: clause (i) only"],
         ["ptrnet", "tsp", "multistart/beam/num_samples", "PointerNetworkPolicy ignores these arguments"],
@@ -296,7 +325,15 @@ class C11:
         ["*", "ffsp/dpp/mdpp", "multistart/num_samples/beam", "no start-node rule / per-episode tables on the "
          "environment object are not replicated"],
         ["*", "svrp/smtwtp/mdcpdp/dpp/mdpp", "multistart/beam", "no start-node rule in get_num_starts"],
-        ["matnet/l2d", "*", "ppo", "create_critic_from_actor does not fit their encoders"],
+        ["matnet/l2d", "*", "ppo", "create_critic_from_actor does not fit their encoders (the PPO class); L2D's own "
+         "step-wise PPO (L2DPolicy4PPO / StepwisePPO / L2DPPOModel) is covered by scenario stepwise_ppo"],
+        ["l2d4ppo", "jssp", "het_emb=False", "the homogeneous feature extractor GCN4JSSP needs torch_geometric (absent "
+         "offline): the HetGNN feature extractor is used for both environments"],
+        ["l2d4ppo", "fjsp/jssp", "BatchNorm in train() mode", "batch statistics of the rollout batch and of a sampled "
+         "mini-batch differ, so the first ratio is not 1 by construction of the layer (observation, see report); "
+         "eval() or instance normalisation instead"],
+        ["l2d4ppo", "fjsp/jssp", "buffer_storage_device='cpu'", "LazyMemmapStorage with 3 prefetch threads: the "
+         "mini-batch order is not a function of the seed"],
     ] + [list(x) for x in P.EXCLUDED]
     CANARIES = {}
 
@@ -307,6 +344,9 @@ class C11:
         rc = st.get("config")
         u = rc.random()
         only = E.only_filter(E.ALL_CONSTRUCTIVE)
+        sw_pool = [e for e in STEPWISE_ENVS if e in only]
+        if u >= 0.94 and sw_pool:
+            return _plan_stepwise(st, rc, sw_pool, tier)
         if u < 0.10:
             scenario = "ppo"
             pool = [c for c in PPO_COMBOS if c[1] in only] or PPO_COMBOS
@@ -382,7 +422,8 @@ class C11:
     def sample(run):
         p = run.plan
         s = {k: p.get(k) for k in ("scenario", "kind", "cfg", "mode", "k", "select_best", "knobs", "ret_sum",
-                                   "ret_entropy", "step_mask", "train_mode", "scripted_mode", "ppo")}
+                                   "ret_entropy", "step_mask", "train_mode", "scripted_mode", "ppo",
+                                   "stepwise")}
         s["B"] = len(p["instances"])
         s["instance0"] = p["instances"][0]
         s["summary"] = getattr(run, "summary", None)
@@ -390,6 +431,9 @@ class C11:
 
     @staticmethod
     def shrink(plan):
+        if plan.get("scenario") == "stepwise_ppo":
+            yield from _shrink_stepwise(plan)
+            return
         if len(plan["instances"]) > 1:
             for i in range(len(plan["instances"])):
                 p = copy.deepcopy(plan)
@@ -420,9 +464,11 @@ class C11:
     @staticmethod
     def execute(run):
         plan = run.plan
-        run.stats["runs:" + ("ppo:" if plan["scenario"] == "ppo" else "") + _scope(plan)] += 1
+        run.stats["runs:" + ("" if plan["scenario"] == "roundtrip" else plan["scenario"] + ":") + _scope(plan)] += 1
         if plan["scenario"] == "ppo":
             return _execute_ppo(run)
+        if plan["scenario"] == "stepwise_ppo":
+            return _execute_stepwise(run)
         kind = plan["kind"]
         if kind == "mdam":
             return _execute_mdam(run)
@@ -921,6 +967,290 @@ def _execute_ppo(run):
 
 
 # --------------------------------------------------------------------------------------------------
+# step-wise PPO (L2DPolicy4PPO.act / .evaluate, StepwisePPO.update, L2DPPOModel)
+# --------------------------------------------------------------------------------------------------
+_F32_EPS = 1.1920929e-07
+
+
+def _stepwise_cfg(name, rc):
+    """tiny FJSP / JSSP configuration (2-4 jobs, 2-3 machines, <= 3 operations per job) with the step-wise reward
+    StepwisePPO.shared_step asks the environment for"""
+    cfg = P.env_cfg_for("l2d", name, 5, rc)
+    g = cfg["gen"]
+    g["num_jobs"] = min(int(g["num_jobs"]), 4)
+    g["num_machines"] = min(int(g["num_machines"]), 3)
+    if "max_ops_per_job" in g:
+        g["max_ops_per_job"] = min(int(g["max_ops_per_job"]), 3)
+        g["min_ops_per_job"] = min(int(g["min_ops_per_job"]), g["max_ops_per_job"])
+    cfg["n"] = g["num_jobs"]
+    cfg["kw"]["stepwise_reward"] = True
+    return cfg
+
+
+def _min_episode_steps(cfg):
+    """lower bound on the episode length: every operation of an instance is one scheduling step"""
+    g = cfg["gen"]
+    per_job = g.get("min_ops_per_job", g["num_machines"])  # one2one JSSP: one operation per machine
+    return int(g["num_jobs"]) * int(per_job)
+
+
+def _plan_stepwise(st, rc, pool, tier):
+    name = pool[rc.randrange(len(pool))]
+    cfg = _stepwise_cfg(name, rc)
+    # test_l2d_ppo builds the environment with _torchrl_mode=True, the hydra configs without
+    cfg["kw"]["_torchrl_mode"] = rc.random() < 0.5
+    env = E.make_env(cfg)
+    B = rc.choice([2, 2, 3, 4])
+    nb = rc.choice([2, 2, 3])
+    rows = E.gen_rows(env, cfg, B * nb, st.torch_seed("instances"))
+    normalization = rc.choice(["batch", "batch", "instance"])
+    # mini-batch <= transitions of one rollout (SamplerWithoutReplacement(drop_last=True): a bigger mini-batch
+    # yields no mini-batch at all)
+    mini = min(B * _min_episode_steps(cfg), B * rc.choice([1, 2, 4]))
+    return {"scenario": "stepwise_ppo", "kind": "l2d4ppo", "cfg": cfg, "instances": [E.enc_row(r) for r in rows],
+            "policy_seed": rc.randrange(1 << 20), "sample_seed": rc.randrange(1 << 30),
+            # BatchNorm in train mode normalises with the statistics of whatever batch it is given (rollout batch vs
+            # sampled mini-batch): only the per-sample instance normalisation is run in train mode
+            "train_mode": normalization == "instance" and rc.random() < 0.5,
+            "stepwise": {"B": B, "batches": nb, "temperature": rc.choice([0.5, 1.0, 2.0]),
+                         "tanh_clipping": rc.choice([0, 10]), "normalization": normalization,
+                         "epochs": rc.randint(1, 2), "mini": mini,
+                         "optimizer": (opt := rc.choice(["Adam", "SGD"])),
+                         # large enough for one update to move the log-probs well beyond the tolerance (a stale
+                         # policy_old must show); gradients are clipped to norm 0.5 by StepwisePPO itself
+                         "lr": rc.choice([1e-3, 1e-2] if opt == "Adam" else [1e-2, 1e-1]),
+                         "clip_range": rc.choice([0.2, 0.1])}}
+
+
+def _shrink_stepwise(plan):
+    sw = plan["stepwise"]
+    if sw["batches"] > 2:
+        p = copy.deepcopy(plan)
+        p["stepwise"]["batches"] -= 1
+        del p["instances"][-sw["B"]:]
+        yield p
+    if sw["epochs"] > 1:
+        p = copy.deepcopy(plan)
+        p["stepwise"]["epochs"] = 1
+        yield p
+    for key, dflt in (("temperature", 1.0), ("tanh_clipping", 10), ("normalization", "batch"), ("optimizer", "SGD")):
+        if sw[key] != dflt:
+            p = copy.deepcopy(plan)
+            p["stepwise"][key] = dflt
+            if key == "normalization":
+                p["train_mode"] = False
+            yield p
+    if plan.get("train_mode"):
+        p = copy.deepcopy(plan)
+        p["train_mode"] = False
+        yield p
+
+
+@contextlib.contextmanager
+def _quiet_logger(name):
+    """L2DPolicy logs 'Unused kwargs' for every constructor argument it forwards to ConstructivePolicy"""
+    import logging
+
+    lg = logging.getLogger(name)
+    old = lg.level
+    lg.setLevel(logging.ERROR)
+    try:
+        yield
+    finally:
+        lg.setLevel(old)
+
+
+def _execute_stepwise(run):
+    import rl4co.models.zoo.l2d.policy as l2dpol
+    from rl4co.models.zoo.l2d.model import L2DPPOModel
+
+    plan = run.plan
+    cfg, sw = plan["cfg"], plan["stepwise"]
+    scope = "stepwise_ppo:" + _scope(plan)
+    B, nb = sw["B"], sw["batches"]
+    rows = [E.dec_row(r) for r in plan["instances"]]
+    if len(rows) != B * nb:
+        raise HarnessError(f"{len(rows)} instances for {nb} batches of {B}")
+    with run.guard(scope, "construct env"):
+        env = E.make_env(cfg)
+    torch.manual_seed(plan["policy_seed"])
+    with run.guard(scope, "construct L2DPPOModel(policy_kwargs=...)"), _quiet_logger(l2dpol.__name__):
+        # het_emb=True: the homogeneous JSSP feature extractor (GCN4JSSP) needs torch_geometric
+        model = L2DPPOModel(env, policy_kwargs=dict(embed_dim=P.EMBED, num_encoder_layers=1, het_emb=True,
+                                                    temperature=sw["temperature"], tanh_clipping=sw["tanh_clipping"],
+                                                    normalization=sw["normalization"]),
+                            clip_range=sw["clip_range"], ppo_epochs=sw["epochs"], mini_batch_size=sw["mini"],
+                            buffer_size=4096, batch_size=B, train_data_size=B * nb, val_data_size=B,
+                            test_data_size=B, optimizer=sw["optimizer"], optimizer_kwargs={"lr": sw["lr"]})
+    pol, pol_old = model.policy, model.policy_old
+    if not isinstance(pol, l2dpol.L2DPolicy4PPO) or pol_old is pol:
+        raise HarnessError("L2DPPOModel did not build an L2DPolicy4PPO and a separate policy_old")
+    if float(pol.temperature) != float(sw["temperature"]) or float(pol.tanh_clipping) != float(sw["tanh_clipping"]):
+        raise HarnessError(f"policy_kwargs not forwarded: temperature {pol.temperature}, tanh_clipping {pol.tanh_clipping}")
+    # BatchNorm on running statistics (eval); instance normalisation is per sample, so it may also run in train()
+    model.train() if plan["train_mode"] else model.eval()
+    norms = sorted({type(m).__name__ for m in model.modules() if "Norm" in type(m).__name__})
+    if plan["train_mode"] and any("BatchNorm" in n for n in norms):
+        raise HarnessError(f"train mode with {norms}")
+    run.nontrivial = True
+    run.state(scope, sw["temperature"], sw["tanh_clipping"], sw["normalization"], plan["train_mode"], sw["epochs"],
+              sw["optimizer"])
+
+    # ---- (A) act / evaluate round trip ----------------------------------------------------------
+    with run.guard(scope, "env.reset"):
+        next_td = env.reset(E.batch_of(cfg, [{k: v.clone() for k, v in r.items()} for r in rows[:B]]))
+    recorded = []
+    cap = 8 * int(next_td["action_mask"].shape[-1]) + 80
+    while not bool(next_td["done"].all()):
+        if len(recorded) >= cap:
+            run.violate(scope, "stepwise_ppo_ratio", f"episode not finished after {cap} act/step rounds",
+                        constraint="termination")
+            raise StopRun()
+        torch.manual_seed(run.streams.torch_seed(f"act-{len(recorded)}"))
+        with torch.no_grad(), ProcessTap(l2dpol) as tap:
+            with run.guard(scope, "policy_old.act(td, env, phase='train')", step=len(recorded)):
+                td = pol_old.act(next_td, env, phase="train")
+        if len(tap.records) != 1:
+            raise HarnessError(f"act made {len(tap.records)} process_logits calls")
+        recorded.append((td.clone(), tap.records[0]))
+        with run.guard(scope, "env.step", step=len(recorded) - 1):
+            next_td = env.step(td)["next"]
+        run.tick()
+    for t, (state, r1) in enumerate(recorded):
+        act, old = state["action"], state["logprobs"].detach().double()
+        with torch.no_grad(), ProcessTap(l2dpol) as tap:
+            with run.guard(scope, "policy.evaluate(recorded state)", step=t):
+                new, value, ent = pol.evaluate(state.clone())
+        if len(tap.records) != 1:
+            raise HarnessError(f"evaluate made {len(tap.records)} process_logits calls")
+        r2 = tap.records[0]
+        new, ent = new.detach().double(), ent.detach().double()
+        if tuple(new.shape) != (B,) or tuple(old.shape) != (B,) or value.shape[0] != B:
+            run.violate(scope, "stepwise_ppo_ratio", f"step {t}: evaluate returned log-probs {tuple(new.shape)} / values "
+                        f"{tuple(value.shape)} for stored log-probs {tuple(old.shape)} of a batch of {B}",
+                        constraint="shape", step=t)
+            raise StopRun()
+        run.log.add("sw_step", t, act.tolist(), _hexes(old), _hexes(new))
+        mask1 = None if r1.mask is None else r1.mask.numpy()
+        # the distribution act sampled from, under the knobs evaluate hands to process_logits
+        ref, scale = ref_logp(r1.logits.numpy(), mask1, r2.temperature, r2.tanh_clipping)
+        raw = max(float(r1.logits[torch.isfinite(r1.logits)].abs().max()), float(r2.logits[torch.isfinite(r2.logits)].abs().max()))
+        ulp = 16 * _F32_EPS * raw
+        knobs = {"act": [r1.temperature, r1.tanh_clipping], "evaluate": [r2.temperature, r2.tanh_clipping],
+                 "policy": [sw["temperature"], sw["tanh_clipping"]]}
+        for i in range(B):
+            a = int(act[i])
+            if mask1 is not None and not bool(mask1[i, a]):
+                run.violate(scope, "stepwise_ppo_ratio", f"step {t} row {i}: act took the masked action {a}",
+                            constraint="infeasible_action", step=t, row=i)
+                raise StopRun()
+            x, y, z = float(old[i]), float(new[i]), float(ref[i, a])
+            if abs(x - z) > tol(z, float(scale[i])) + ulp:
+                run.violate(scope, "stepwise_ppo_ratio", f"step {t} row {i}: log-prob stored by act {x!r} is not the "
+                            f"masked log-softmax value {z!r} of the taken action {a} under the knobs evaluate uses "
+                            f"(temperature, tanh clip: act {knobs['act']}, evaluate {knobs['evaluate']})",
+                            constraint="act_distribution", step=t, row=i, got=x, ref=z, knobs=knobs)
+                raise StopRun()
+            if abs(x - y) > tol(x) + ulp:
+                run.violate(scope, "stepwise_ppo_ratio", f"step {t} row {i}: evaluate re-scores action {a} with {y!r}, act "
+                            f"stored {x!r}: ratio {math.exp(y - x)!r} before any update",
+                            constraint="roundtrip", step=t, row=i, got=y, ref=x, ratio=math.exp(y - x), knobs=knobs)
+                raise StopRun()
+            h = ref_entropy(ref[i])
+            if abs(float(ent[i]) - h) > tol(h) * 4 + ulp:
+                run.violate(scope, "stepwise_ppo_ratio", f"step {t} row {i}: evaluate's entropy {float(ent[i])!r} is not "
+                            f"that of the distribution act sampled from ({h!r})", constraint="entropy", step=t, row=i,
+                            got=float(ent[i]), ref=h)
+                raise StopRun()
+    run.probe("stepwise_roundtrip")
+    if sw["temperature"] != 1.0:
+        run.probe("stepwise_temperature_on_policy")
+
+    # ---- (B) consecutive updates: first mini-batch of every update --------------------------------
+    with run.guard(scope, "configure_optimizers"):
+        opt = model.configure_optimizers()
+    if not isinstance(opt, torch.optim.Optimizer):
+        raise HarnessError(f"configure_optimizers returned {type(opt).__name__}")
+    counters = {"opt_steps": 0, "evals": 0}
+    captures = []
+    opt_step = opt.step
+
+    def step(*a, **k):
+        counters["opt_steps"] += 1
+        return opt_step(*a, **k)
+
+    opt.step = step
+    params = [p for g in opt.param_groups for p in g["params"]]
+    model.optimizers = lambda: opt
+    model.manual_backward = lambda loss, *a, **k: loss.backward()
+    model.clip_gradients = lambda o, gradient_clip_val=None, gradient_clip_algorithm=None: \
+        torch.nn.utils.clip_grad_norm_(params, gradient_clip_val)
+    model.log_dict = lambda *a, **k: None
+    evaluate = pol.evaluate
+    tap_b = ProcessTap(l2dpol)
+
+    def tapped_evaluate(td_mb):
+        first = counters["evals"] == 0
+        pre = td_mb["logprobs"].detach().clone() if first else None
+        n0 = len(tap_b.records)
+        out = evaluate(td_mb)
+        counters["evals"] += 1
+        if first:
+            recs = tap_b.records[n0:]
+            raw = max([float(r.logits[torch.isfinite(r.logits)].abs().max()) for r in recs] or [0.0])
+            captures.append({"old": pre, "new": out[0].detach().clone(), "opt_steps": counters["opt_steps"],
+                             "rows": int(td_mb.batch_size[0]), "raw": raw})
+        del tap_b.records[:]
+        return out
+
+    pol.evaluate = tapped_evaluate
+    ratios = []
+    try:
+        for b in range(nb):
+            batch = E.batch_of(cfg, [{k: v.clone() for k, v in r.items()} for r in rows[b * B:(b + 1) * B]])
+            counters["opt_steps"] = counters["evals"] = 0
+            n_cap = len(captures)
+            torch.manual_seed(run.streams.torch_seed(f"shared_step-{b}"))
+            with tap_b:
+                with run.guard(scope, "L2DPPOModel.shared_step(batch, batch_idx, 'train')", batch_idx=b):
+                    model.shared_step(batch, b, "train")
+            if len(captures) != n_cap + 1 or counters["opt_steps"] == 0:
+                raise HarnessError(f"batch {b}: {counters['evals']} evaluate calls, {counters['opt_steps']} optimizer steps: "
+                                   "no update happened")
+            c = captures[-1]
+            if c["opt_steps"] != 0:
+                raise HarnessError("an optimizer step preceded the first evaluate call of the update")
+            run.tick(counters["evals"])
+            old, new = c["old"].double(), c["new"].double()
+            if old.shape != new.shape:
+                run.violate(scope, "stepwise_ppo_ratio", f"update {b}: evaluate returned {tuple(new.shape)} log-probs for a "
+                            f"mini-batch with {tuple(old.shape)} stored ones", constraint="shape", update=b)
+                raise StopRun()
+            ratio = torch.exp(new - old)
+            ratios.append([float(x) for x in ratio])
+            run.log.add("sw_update", b, c["rows"], counters["evals"], counters["opt_steps"], _hexes(old),
+                        [round(float(x), 6) for x in ratio])
+            ulp = 16 * _F32_EPS * c["raw"]
+            for i in range(ratio.numel()):
+                if not abs(float(ratio[i]) - 1.0) <= 1e-5 + ulp:
+                    run.violate(scope, "stepwise_ppo_ratio", f"update {b} (batch_idx {b}), first mini-batch, row {i}: "
+                                f"probability ratio {float(ratio[i])!r} before any optimizer step of this update (log-prob "
+                                f"stored at rollout {float(old[i])!r}, re-evaluated {float(new[i])!r})",
+                                constraint="ratio_not_one_first_update" if b == 0 else "ratio_not_one_later_update",
+                                update=b, row=i, ratio=float(ratio[i]), old=float(old[i]), new=float(new[i]),
+                                epochs=sw["epochs"], mini=sw["mini"], optimizer=sw["optimizer"], lr=sw["lr"],
+                                normalization=sw["normalization"], train_mode=plan["train_mode"])
+                    raise StopRun()
+            if b >= 1:
+                run.probe("stepwise_second_update")
+    finally:
+        pol.__dict__.pop("evaluate", None)
+    if plan["train_mode"]:
+        run.probe("stepwise_train_mode_instance_norm")
+    run.summary = {"steps": len(recorded), "ratios": ratios, "norm_layers": norms}
+
+
+# --------------------------------------------------------------------------------------------------
 # canary mutants (in-memory only)
 # --------------------------------------------------------------------------------------------------
 def _patch_attr(obj, name, new):
@@ -1105,6 +1435,46 @@ def _canary_mdam_unnormalised():
     return _patch_attr(md.MDAMDecoder, "_get_logprobs", _get_logprobs)
 
 
+def _canary_l2d_act_uses_temperature_only():
+    """L2DPolicy4PPO.act applies the policy's temperature to the distribution it samples from and stores the
+    log-prob of; evaluate keeps re-scoring without it."""
+    import rl4co.models.zoo.l2d.policy as lp
+    from rl4co.utils.decoding import DecodingStrategy
+    from rl4co.utils.ops import gather_by_index
+
+    def act(self, td, env, phase: str = "train"):
+        logits, mask = self.decoder(td, hidden=None, num_starts=0)
+        logprobs = lp.process_logits(logits, mask, temperature=self.temperature, tanh_clipping=self.tanh_clipping)
+        if phase == "train":
+            action_indexes = DecodingStrategy.sampling(logprobs)
+            td["logprobs"] = gather_by_index(logprobs, action_indexes, dim=1)
+        else:
+            action_indexes = DecodingStrategy.greedy(logprobs)
+        td["action"] = action_indexes
+        return td
+
+    return _patch_attr(lp.L2DPolicy4PPO, "act", act)
+
+
+def _canary_stepwise_policy_old_synced_before_update():
+    """StepwisePPO.update copies the weights into policy_old at its START instead of its end: every rollout after
+    the first update is sampled by the weights of one update ago."""
+    from rl4co.models.rl.ppo import stepwise_ppo as sp
+
+    orig = sp.StepwisePPO.update
+
+    def update(self, device):
+        old = self.policy_old
+        old.load_state_dict(self.policy.state_dict())
+        old.__dict__["load_state_dict"] = lambda *a, **k: None  # the sync at the end of update is gone
+        try:
+            return orig(self, device)
+        finally:
+            old.__dict__.pop("load_state_dict", None)
+
+    return _patch_attr(sp.StepwisePPO, "update", update)
+
+
 C11.CANARIES = {
     "mdam_unnormalised": _canary_mdam_unnormalised,
     "gather_before_process": _canary_gather_before_process,
@@ -1114,4 +1484,6 @@ C11.CANARIES = {
     "mask_ignored_in_ll": _canary_mask_ignored_in_ll,
     "ppo_old_logprob_rolled": _canary_ppo_ratio_inverted_pairing,
     "select_best_logp_other_row": _canary_select_best_logp_other_row,
+    "l2d_act_uses_temperature_only": _canary_l2d_act_uses_temperature_only,
+    "stepwise_policy_old_synced_before_update": _canary_stepwise_policy_old_synced_before_update,
 }
